@@ -259,3 +259,26 @@ Qed.
 Lemma wf_refuted :
   exists es, (exists p t m, compile pinned es = COk (p, (t, m)) /\ wf_program p t m = false) /\ compile repaired es = CErr.
 Proof. eexists. split; [apply unclosed_pinned_not_wf | apply unclosed_repaired_rejected]. Qed.
+
+(* ---- the two pinned variants found while proving that every compiled program is well formed ---- *)
+Definition no_dup_fix : variant := mkVariant true true true false true.
+Definition no_start_fix : variant := mkVariant true true true true false.
+
+(* a statement twice on one element: accepted, both commands emitted, not well formed *)
+Lemma duplicate_pinned_not_wf :
+  exists es, (exists p t m, compile no_dup_fix es = COk (p, (t, m)) /\ wf_program p t m = false) /\ compile repaired es = CErr.
+Proof.
+  exists [EvStart P_ [(lit "tal:define"%string, Some (lit "a b"%string)); (lit "tal:define"%string, Some (lit "c d"%string))];
+          EvData (lit "x"%string) false; EvEnd P_].
+  split; [eexists; eexists; eexists; split; vm_compute; reflexivity | vm_compute; reflexivity].
+Qed.
+
+(* define-macro on an element that also has use-macro: the macro starts after the START_SCOPE *)
+Lemma substart_pinned_not_wf :
+  exists es, (exists p t m, compile no_start_fix es = COk (p, (t, m)) /\ wf_program p t m = false) /\
+             (exists p t m, compile repaired es = COk (p, (t, m)) /\ wf_program p t m = true).
+Proof.
+  exists [EvStart P_ [(lit "metal:use-macro"%string, Some (lit "macros/m"%string)); (lit "metal:define-macro"%string, Some (lit "n"%string))];
+          EvData (lit "x"%string) false; EvEnd P_].
+  split; eexists; eexists; eexists; split; vm_compute; reflexivity.
+Qed.
